@@ -48,3 +48,18 @@ Lemma F_repaired_value_ok :
   PrimFloat.leb (fabs (PrimFloat.sub (F_len F_lo) F_s))
                 (PrimFloat.mul 4 (ulp_of 0x1.86ap+17%float)) = true.
 Proof. vm_compute. reflexivity. Qed.
+
+(* Path branch: s on a segment boundary.  Path(Line(0,0.1), Line(0.1,0.1+0.2j),
+   Line(0.1+0.2j,1+0.2j)), lengths 0.1, 0.2, 0.9, L = 1.2, s = 0.1 + 0.2 =
+   0.30000000000000004: the search accepts segment 1 (0.1 <= s <= 0.1 + 0.2)
+   and calls the segment with s - 0.1 = 0.20000000000000004 > 0.2 *)
+Definition P_segs : list (@pseg float) :=
+  [(true, (fun t => t), 0x1.999999999999ap-4); (true, (fun t => t), 0x1.999999999999ap-3);
+   (true, (fun t => t), 0x1.ccccccccccccdp-1)]%float.
+Definition P_s : float := 0x1.3333333333334p-2%float.
+Definition P_L : float := 0x1.3333333333333p+0%float.
+Lemma P_s_inside : PrimFloat.leb 0 P_s && PrimFloat.leb P_s P_L = true.
+Proof. vm_compute. reflexivity. Qed.
+Lemma P_path_valueerror rep t2T :
+  inv_arclength_path NumF rep t2T P_segs P_L P_s F_tol 10000 = EValueError.
+Proof. vm_compute. reflexivity. Qed.
